@@ -37,6 +37,7 @@ CLASS_HOME = {
     'ArmijoGoldsteinLS': 'openmdao/solvers/linesearch/backtracking.py',
     'EQConstraintComp': 'openmdao/components/eq_constraint_comp.py',
     'Group': 'openmdao/core/group.py',
+    '_TotalJacInfo': 'openmdao/core/total_jac.py',
     'InterpND': 'openmdao/components/interp_util/interp.py',
     'Interp1DSlinear': 'openmdao/components/interp_util/interp_slinear.py',
     'BalanceComp': 'openmdao/components/balance_comp.py',
@@ -69,6 +70,7 @@ PROPERTY_MODULES = {
     'C11': ['contracts.c11_assembled'],
     'C26': ['contracts.c26_components'],
     'C32': ['contracts.c32_order'],
+    'C03': ['contracts.c03_coloring'],
     'C15': ['contracts.c15_interp'],
     'C16': ['contracts.c15_interp'],
 }
@@ -481,3 +483,31 @@ GAPS['C15'] = ['every interpolation algorithm except the 1-d piecewise-linear on
 GAPS['C16'] = ['derivatives of every algorithm except the 1-d piecewise-linear one-point kernel: BOUNDED tier only', 'd/dvalues (training gradients) and spline-mode gradients: BOUNDED tier only',
                'requests for table gradients that raise (methods without d/dvalues support; akima with more than one table dimension) return no derivative and are outside the statement: counted in the evidence, not failures',
                'points on cell boundaries (one-sided derivatives)']
+
+
+def _c03_extra(tier, seed, native_run):
+    out = {'violations': [], 'errors': []}
+    r = _run_bounded('c03_coloring.py', [tier], timeout=12000)
+    if 'error' in r:
+        out['errors'].append('bounded coloring tier could not run: ' + r['error'])
+        return out
+    rule = ('every boolean sparsity pattern up to %s x modes {fwd, rev, auto} x {direct, substitution}: colour-group structure, solve count <= uncoloured, and reconstruction of EVERY matrix with that pattern '
+            '(the recovery rule is linear in the matrix: all nnz unit matrices + one matrix of distinct primes); real Problems y = A x with driver.use_fixed_coloring for every %s pattern; chain models '
+            '(responses at different depths, two evaluations) for all fully populated patterns%s; %d structured patterns up to 10 x 10 (arrowheads and variants, seeded random sparse) incl. chain models. '
+            'A case is non-trivial when its pattern has at least two nonzeros; cases are distinct by construction (enumeration)'
+            % ('3 x 3 plus every 17th 3 x 4 / 4 x 3 pattern' if tier == 'quick' else '3 x 4 / 4 x 3', '5th' if tier == 'quick' else '13th', ' (every third 3 x 3)' if tier == 'quick' else ' up to 3 x 4 / 4 x 3',
+               r.get('structured_patterns_up_to_10x10', 0)))
+    out['bounded_coloring'] = {'note': 'BOUNDED exhaustive tier (the colouring algorithms are scipy.sparse / graph code outside pyvc\'s subset): real _compute_coloring / Coloring objects, the framework\'s own recovery rule '
+                                       '(tangent_iter, get_row_col_map, _apply_subtractions), and real coloured compute_totals',
+                               'bound': rule, 'evaluations': r['evaluations'], 'distinct_nontrivial': r['distinct_nontrivial'], 'exhaustive': True, 'patterns': r['patterns'],
+                               'end_to_end_models': r['end_to_end_models'], 'chain_models': r.get('chain_models'), 'failures': r['n_failures'], 'samples': r['samples']}
+    out['exploration'] = {'evaluations': r['evaluations'], 'distinct_nontrivial': r['distinct_nontrivial'], 'rule': rule, 'samples': r['samples'], 'exhaustive': True}
+    for f in r['failures'][:3]:
+        out['violations'].append(dict(f, what='coloring: ' + f['kind'], witness_id='c03-%s' % json_key(f)))
+    return out
+
+
+EXTRA_TIERS['C03'] = _c03_extra
+LEVELS['C03'] = 'exploration'
+GAPS['C03'] = ['the colouring algorithms (_compute_coloring, MNCO_bidir, _color_partition, _get_subtractions, Coloring.get_row_col_map / tangent_iter / _apply_subtractions: scipy.sparse / graph code, Python lists of index lists) are NOT under a deductive contract: BOUNDED tier only; under contract is only _TotalJacInfo.simul_coloring_jac_setter', '_TotalJacInfo._zero_vecs / single_input_setter / the solve loop that produces the solution vector the setter reads',
+               'patterns larger than the bound; partial (per-component) colourings and coloured approximations (FD/CS); colourings computed from the tolerance sweep of real models (compute_total_coloring); MPI']
